@@ -67,6 +67,16 @@ def messages():
     mv2.get_field_by_id("heave").value = 0.25
     mv_bad = copy.deepcopy(mv)
     mv_bad.get_field_by_id("heave").value = 1e9
+    # the same message again with only the RAW value of a lookup field changed (the text stays: what a cache keyed on the
+    # displayed values would take for a repetition), and a fast-packet message short enough for one frame (its sequence counter
+    # still moves on with every transmission)
+    single_raw = copy.deepcopy(single)
+    fr = single_raw.get_field_by_id("reference")
+    fr.raw_value = 1 if fr.raw_value != 1 else 0
+    dsf = next(x for x in build()["defs"] if x["id"] == "fusionSetMute")
+    shortfast = dec.decode_basic_string(corpus.basic_string(126720, corpus.build_payload(dsf, {}, None), src=4), already_combined=True)
+    if shortfast is None or shortfast.id != "fusionSetMute":
+        raise RuntimeError("no short fast-packet sample message")
     from nmea2000.message import NMEA2000Message
     seeds = []
     for want in (60928, 126996, 126998):
@@ -74,7 +84,7 @@ def messages():
         sm.fields[0].value = want
         seeds.append(sm)
     return {"seed1": seeds[0], "seed2": seeds[1], "seed3": seeds[2], "variant": mv, "variant2": mv2, "bad-variant": mv_bad,
-            "single": single, "single2": single2, "multi": multi, "multi2": multi2,
+            "single": single, "single2": single2, "single-raw": single_raw, "shortfast": shortfast, "multi": multi, "multi2": multi2,
             "bad-missing": missing, "bad-range": out_of_range, "bad-pgn": unknown,
             "bad-priority": prio8, "bad-source": src256, "bad-pgn-wide": wide}
 
@@ -208,6 +218,13 @@ def bind(chk: Check, tier: str, seed: int):
                     r, order = session(kind, names, stagger, plan, [], M)
                     recs.append(r)
                     meta.append((kind, "+".join(names), f"drain={mask if isinstance(mask, str) else 'mask'}", f"stagger{stagger}", "no-fault"))
+        # near-repetitions one after the other on one client: what goes out is what the encoder produces for THIS call
+        for names in (["single", "single-raw"], ["single-raw", "single", "single-raw"], ["shortfast", "shortfast"],
+                      ["shortfast", "shortfast", "multi", "shortfast"], ["single", "shortfast", "single-raw", "shortfast"]):
+            for stagger in (1, 3):
+                r, order = session(kind, names, stagger, SendPlan(), [], M)
+                recs.append(r)
+                meta.append((kind, "+".join(names), "drain=none", f"stagger{stagger}", "near-repetition"))
         # a failure at each packet of a multi-frame message (write raises / drain raises), then reconnect and more sends
         total = len(mirror(kind, [M["multi"]])[0])
         for j in range(1, total + 2):
